@@ -33,6 +33,52 @@ def _operand_side(f, op):
     return sides
 
 
+def _descendants(P, f):
+    out = []
+    st = list(P.children.get(f.key, []))
+    while st:
+        ch = st.pop()
+        out.append(ch)
+        st.extend(P.children.get(ch.key, []))
+    return out
+
+
+def _index_chain(P, g, op, depth=6, _seen=None):
+    """(callee name | binop:<op>, constant second operand) of every computation on the provenance of an index operand; a closure parameter is
+    followed to the receiver of the combinator call (and_then / map / ...) that the closure is passed to"""
+    _seen = _seen if _seen is not None else set()
+    out = []
+    for o in F.origins(g, op, depth=12):
+        if o.kind == "call":
+            c = o.call
+            if id(c) in _seen:
+                continue
+            _seen.add(id(c))
+            const = None
+            if len(c.args) > 1 and c.args[1]["k"] == "const":
+                const = c.args[1].get("int")
+            out.append((short(c.name), const))
+            if not F.TRANSPARENT.search(short(c.name)) and depth > 0:
+                for a in c.args[:1]:
+                    out += _index_chain(P, g, a, depth - 1, _seen)
+        elif o.kind == "binop":
+            out.append(("binop:" + o.extra, None))
+        elif o.kind == "arg" and g.kind == "Closure" and o.arg >= 2 and depth > 0:
+            owner = g
+            hosts = []
+            while owner.kind == "Closure" and owner.parent_key in P.fns:
+                owner = P.fns[owner.parent_key]
+            for h in [owner] + _descendants(P, owner):
+                for c in h.calls:
+                    raw_key = g.key[4:] if g.key.startswith("bin/") else g.key
+                    if raw_key in (c.func.get("closure_args") or []) and id(c) not in _seen:
+                        _seen.add(id(c))
+                        out.append((short(c.name), None))
+                        if c.args:
+                            out += _index_chain(P, h, c.args[0], depth - 1, _seen)
+    return out
+
+
 def run(R):
     P = R.prog
     R.rule("C03.sites", "no unchecked arithmetic, narrowing cast or panicking call on evaluated data (site inventory rooted at evaluate)")
@@ -326,16 +372,36 @@ def run(R):
                                                      "clauses in order", [f.loc(arms_["Case"][0])])
     if "ArrayElementAccess" in arms_:
         areg2 = arms_["ArrayElementAccess"][1]
-        subs = [c for c in f.calls if c.bb in areg2 and short(c.name).endswith("<impl i64>::checked_sub")]
-        gets = [c for c in f.calls if c.bb in areg2 and short(c.name) == "core::slice::<impl [T]>::get"] + \
-               [ch_c for ch in P.children.get(f.key, []) for ch_c in ch.calls if short(ch_c.name) == "core::slice::<impl [T]>::get" and ch.line >= f.blocks[arms_["ArrayElementAccess"][0]]["term"]["span"]["line"] - 5]
-        one = subs and subs[0].args[1]["k"] == "const" and subs[0].args[1].get("int") == 1
-        raw_index = [c for c in f.calls if c.bb in areg2 and "Index<" in short(c.name)]
-        if one and gets and not raw_index:
-            R.ok("C03.subscript", "evaluate|ArrayElementAccess", "values.get(subscript - 1)", subs[0].loc())
-        else:
-            R.violation("C03.subscript", "evaluate|ArrayElementAccess", "array subscripts are not `get(subscript.checked_sub(1))` (1-based, total)",
+        lines = [s_["line"] for i_, s_ in f.stmts() if i_ in areg2] + [f.blocks[b]["term"]["span"]["line"] for b in areg2]
+        lo, hi = min(lines), max(lines)
+        in_arm = [(f, c) for c in f.calls if c.bb in areg2]
+        for ch in _descendants(P, f):
+            if lo <= ch.line <= hi:
+                in_arm += [(ch, c) for c in ch.calls]
+        gets = [(g, c) for g, c in in_arm if short(c.name) == "core::slice::<impl [T]>::get"]
+        raw_index = [(g, c) for g, c in in_arm if "Index<" in short(c.name) and "Value" in " ".join(c.func.get("res_targs") or c.targs)]
+        if raw_index:
+            R.violation("C03.subscript", "evaluate|ArrayElementAccess|raw-index", "an array element is read with `[]` (panics when out of range) "
+                                                                                   "instead of get()", [raw_index[0][1].loc()])
+        if not gets:
+            R.violation("C03.subscript", "evaluate|ArrayElementAccess|no-get", "the subscript arm no longer looks the element up with get()",
                         [f.loc(arms_["ArrayElementAccess"][0])])
+        for n_, (g, c) in enumerate(gets):
+            names = _index_chain(P, g, c.args[1])
+            sub1 = [x for x in names if x[0].endswith("::checked_sub") and x[1] == 1]
+            banned = [x for x in names if re.search(r"::(saturating_\w+|wrapping_\w+|overflowing_\w+|clamp|max|min|abs|unsigned_abs|rem_euclid|"
+                                                    r"unwrap_or|unwrap_or_default)$", x[0])]
+            raw = [x for x in names if x[0] in ("binop:Sub", "binop:SubWithOverflow", "binop:Rem", "binop:Add", "binop:AddWithOverflow")]
+            key = "evaluate|ArrayElementAccess" + ("" if n_ == 0 else "|get#%d" % (n_ + 1))
+            if banned or raw:
+                R.violation("C03.subscript", key + "|clamped",
+                            "the element index is computed through %s: a subscript outside 1..len (e.g. 0) selects an element instead of "
+                            "yielding NULL" % (banned or raw)[0][0], [c.loc()])
+            elif not sub1:
+                R.violation("C03.subscript", key + "|not-one-based", "the element index does not pass through checked_sub(1) (chain: %s): "
+                                                                      "subscripts are 1-based" % [x[0].split("::")[-1] for x in names][:6], [c.loc()])
+            else:
+                R.ok("C03.subscript", key, "values.get(subscript.checked_sub(1)..)", c.loc())
     # ---- projection
     sf = R.need_fn(SEL)
     keys = [c for c in sf.calls if c.func.get("trait") == "sqlgrep::execution::ColumnProvider" and c.func.get("trait_method") == "keys"]
